@@ -14,11 +14,18 @@ resumed. Scenarios that contain `upcancel` therefore follow one of two disciplin
   "one"   - at most one awaited user event at any time: `waite` only on variable 8, and variable 8 is only (re)written by
             the pair `ucancel 8` / `usched 8 ...` (no yield in between), variable 9 holds events nobody waits for.
 In both, the set of wake-ups, their times, priorities and the block of handles they occupy do not depend on the order.
+
+The timer API applied to another process (`tclearo q` = cmb_process_timers_clear(&procs[q]), `taddo q d sig` =
+cmb_process_timer_add(&procs[q], d, sig), handle discarded; both skipped unless q is started and unfinished): offered wherever
+`tadd` / `tclear` are (profiles timers / mixed / lifecycle), and concentrated in the profile `timerso`, whose targets arm timers
+of their own and THEN suspend themselves in a wait (acquire, pool acquire, buffer get, wait for a process / an event, condition
+wait, hold), so that their awaits lists hold a non-timer entry in front of the timer entries when another process clears them;
+afterwards several processes block again, so that the awaitable tags that were freed are handed out again.
 """
 import random
 
 SIGS = [-2, -5, -4, -7, 3, 11]          # interrupt / timer / resume signals (never 0 = SUCCESS)
-PROFILES = ["resource", "pool", "buffer", "oq", "pq", "cond", "lifecycle", "timers", "mixed", "crowd", "record", "poolprio", "condcrowd", "condfwd", "evgrow", "prioq", "record2", "pqreprio", "poolleft", "longrec"]
+PROFILES = ["resource", "pool", "buffer", "oq", "pq", "cond", "lifecycle", "timers", "mixed", "crowd", "record", "poolprio", "condcrowd", "condfwd", "evgrow", "prioq", "record2", "pqreprio", "poolleft", "longrec", "timerso"]
 
 
 def gen_scenario(rng, profile=None, size=None, exclude=frozenset()):
@@ -132,6 +139,7 @@ def gen_scenario(rng, profile=None, size=None, exclude=frozenset()):
                    "tcancel %d" % v, "tclear", usched_cmds(), "ucancel %d" % uvar()]
             if pmode:
                 ch += [usched_cmds(), usched_cmds(), "upcancel", "upcancel"]
+            ch += ["tclearo %d" % other(me)] * 2 + ["taddo %d %d %d" % (other(me), dur(), rng.choice(SIGS))] * 2
         if pqs:
             v = rng.randrange(4, 8)
             ch += ["kcancel 0 %d" % v, "kreprio 0 %d %d" % (v, rng.choice([0, 2, 7, -3])), "kpos 0 %d" % v]
@@ -264,6 +272,78 @@ def gen_scenario(rng, profile=None, size=None, exclude=frozenset()):
             cmds += ["hold 2", "rstop %d 0" % code]
         out = [head, "proc %d 1 %d" % (rng.randint(0, 3), len(cmds))] + cmds
         return out, {"profile": profile, "procs": 1, "lines": len(out)}
+    if profile == "timerso":
+        # targets: timers armed first, then a wait that registers a non-timer awaitable; controllers clear / add timers of the
+        # suspended targets, then everybody blocks again (tags are reused), targets clear their own timers, priorities change
+        cap = rng.choice([2, 3, 5])
+        out = ["res", "res", "pool %d" % cap, "buf %d" % rng.choice([1, 3]), "oq 2", "cond"]
+        nt = rng.randint(1, 4)
+        nc = rng.randint(1, 2)
+        np_ = 1 + nt + nc
+        tdur = lambda: rng.choice([1, 2, 2, 3, 4, 5, 6, 8])
+        procs = []
+        # the holder: takes everything so that the targets' calls block, lets go later, raises the flags at the end
+        hcmds = ["usched 8 %d %d" % (rng.randint(2, 9), rng.randint(0, 3)), "acq 0", "pacq 0 %d" % cap]
+        if rng.random() < 0.7:
+            hcmds.append("acq 1")
+        hcmds.append("hold %d" % rng.randint(3, 9))
+        rels = ["rel 0", "prel 0 %d" % cap, "rel 1", "bput 0 1", "flag 1 1", "csig 0", "oput 0 5"]
+        rng.shuffle(rels)
+        for x in rels:
+            hcmds.append(x)
+            if rng.random() < 0.3:
+                hcmds.append("hold %d" % rng.randint(0, 2))
+        hcmds += ["hold 2", "flag 2 1", "flag 3 1", "csig 0", "bput 0 3"]
+        procs.append((rng.randint(6, 9), hcmds))
+
+        def wait_call(me):
+            return rng.choice(["acq 0", "acq 0", "acq 1", "pacq 0 %d" % rng.randint(1, cap), "bget 0 %d" % rng.randint(1, 2),
+                               "waitp 0", "waitp %d" % rng.randrange(np_), "waite 8", "cwait 0 0 %d 0" % rng.randint(1, 3),
+                               "cwait 0 1 0 0", "hold %d" % tdur(), "oget 0", "yield"])
+        for j in range(nt):
+            me = 1 + j
+            cmds = []
+            if rng.random() < 0.3:
+                cmds.append("hold %d" % rng.randint(0, 1))
+            for _ in range(rng.randint(1, 3)):
+                for v in range(rng.choice([1, 2, 2, 3])):
+                    cmds.append("tadd %d %d %d" % (v, tdur(), rng.choice([-5, -5, -7, 11])))
+                cmds.append(wait_call(me))
+                r = rng.random()
+                if r < 0.3:
+                    cmds.append("tclear")
+                elif r < 0.45:
+                    cmds.append("tcancel %d" % rng.randrange(3))
+                elif r < 0.6:
+                    cmds.append("tset 0 %d -5" % tdur())
+                if rng.random() < 0.4:
+                    cmds.append(rng.choice(["rel 0", "rel 1", "prel 0 1", "hold 1"]))
+            procs.append((rng.randint(2, 5), cmds))
+        for j in range(nc):
+            me = 1 + nt + j
+            cmds = ["hold %d" % rng.randint(1, 2)]
+            for _ in range(rng.randint(2, 6)):
+                r = rng.random()
+                tgt = rng.randint(1, nt) if rng.random() < 0.85 else rng.randrange(np_)
+                if r < 0.45:
+                    cmds.append("tclearo %d" % tgt)
+                elif r < 0.65:
+                    cmds.append("taddo %d %d %d" % (tgt, rng.choice([0, 1, 1, 2, 3]), rng.choice(SIGS)))
+                elif r < 0.72:
+                    cmds.append(rng.choice(["prio %d %d" % (tgt, rng.randint(0, 9)), "intr %d %d %d" % (tgt, rng.choice(SIGS), rng.randint(0, 5)),
+                                            "resume %d %d" % (tgt, rng.choice(SIGS)), "stop %d 4" % tgt]))
+                else:
+                    # block again: the freed tags are handed out to new registrations
+                    if rng.random() < 0.5:
+                        cmds.append("tadd 0 %d %d" % (tdur(), rng.choice([-5, 3])))
+                    cmds.append(rng.choice(["hold %d" % rng.randint(0, 2), "hold 1", "acq 1", "waitp %d" % rng.randint(1, nt), "pacq 0 1",
+                                            "cwait 0 0 2 0", "bget 0 1", "waite 8"]))
+                    if rng.random() < 0.3:
+                        cmds.append(rng.choice(["tclear", "rel 1", "prel 0 1"]))
+            procs.append((rng.randint(0, 3), cmds))
+        for pr, c in procs:
+            out += ["proc %d 1 %d" % (pr, len(c))] + c
+        return out, {"profile": profile, "procs": len(procs), "lines": len(out)}
     if profile == "poolleft":
         # multi-step pool acquisitions that are served in instalments, with further waiters behind them, and releases that
         # leave something over; everybody parks for ever afterwards (a get from an empty buffer) so that whatever is wrong
